@@ -132,7 +132,7 @@ func c12Run(t *testing.T, p c12Plan) (res vfResult) {
 			return
 		}
 		sc := newVFSched(w, []string{"snapshot.begin", "snapshot.listed", "snapshot.created", "snapshot.written", "snapshot.renamed"}, nil)
-		defer func() { verifPointFn = nil }()
+		defer vfCurSched.Store(nil)
 		si := 0
 		nextChoice := func() int {
 			if si < len(p.Sched) {
